@@ -18,15 +18,16 @@ type Log = Arc<Mutex<Vec<String>>>;
 #[derive(Clone, Debug)]
 enum RunStep { True, False, Err, SleepTrue(u64) }
 
-struct Probe { log: Log, script: VecDeque<RunStep>, stop_err: bool, runs: u32 }
+struct Probe { log: Log, script: VecDeque<RunStep>, stop_err: bool, runs: u32, stop_panics: bool }
 struct Args { log: Log, start_ok: bool, script: Vec<RunStep>, stop_err: bool }
+static STOP_PANICS: std::sync::atomic::AtomicBool = std::sync::atomic::AtomicBool::new(false);
 
 impl Actor for Probe {
     type Args = Args;
     type Error = String;
     async fn on_start(a: Args, _r: &ActorRef<Self>) -> Result<Self, String> {
         a.log.lock().unwrap().push("start".into());
-        if a.start_ok { Ok(Probe { log: a.log, script: a.script.into(), stop_err: a.stop_err, runs: 0 }) } else { Err("start-failed".into()) }
+        if a.start_ok { Ok(Probe { log: a.log, script: a.script.into(), stop_err: a.stop_err, runs: 0, stop_panics: STOP_PANICS.load(std::sync::atomic::Ordering::SeqCst) }) } else { Err("start-failed".into()) }
     }
     async fn on_run(&mut self, _w: &ActorWeak<Self>) -> Result<bool, String> {
         self.runs += 1;
@@ -42,6 +43,7 @@ impl Actor for Probe {
     }
     async fn on_stop(&mut self, _w: &ActorWeak<Self>, killed: bool) -> Result<(), String> {
         self.log.lock().unwrap().push(format!("stop:{killed}"));
+        if self.stop_panics { panic!("on_stop panics (scripted)"); }
         if self.stop_err { Err("stop-failed".into()) } else { Ok(()) }
     }
 }
@@ -51,6 +53,7 @@ impl Message<Msg> for Probe {
     type Reply = u32;
     async fn handle(&mut self, m: Msg, _r: &ActorRef<Self>) -> u32 {
         self.log.lock().unwrap().push(format!("h:{}", m.id));
+        if m.id == 666 { panic!("handler panics (scripted)"); }
         if m.sleep_ms > 0 { tokio::time::sleep(Duration::from_millis(m.sleep_ms)).await; }
         self.log.lock().unwrap().push(format!("hd:{}", m.id));
         m.id * 10
@@ -386,6 +389,42 @@ fn blocking_api() -> Out {
     Out { name: "blocking_api", ok: ok.is_ok(), detail: ok.err().unwrap_or_default(), trace: tr }
 }
 
+/// a panic in a hook must surface as a panic JoinError (never as a normal ActorResult), on_stop must not run after it, pending
+/// and later senders get errors, other actors are unaffected
+async fn hook_panics() -> Out {
+    std::panic::set_hook(Box::new(|_| {}));
+    let mut ok: Result<(), String> = Ok(());
+    // (a) handler panic
+    let log = new_log();
+    let (r, h) = spawn_with_mailbox_capacity::<Probe>(args(&log), 4);
+    let (by, hb) = spawn::<Probe>(args(&new_log())); // bystander
+    r.tell(Msg { id: 1, sleep_ms: 0 }).await.unwrap();
+    let before = r.ask(Msg { id: 2, sleep_ms: 0 }).await;
+    r.tell(Msg { id: 666, sleep_ms: 0 }).await.unwrap();
+    let r3 = r.clone();
+    let behind = tokio::spawn(async move { r3.ask(Msg { id: 3, sleep_ms: 0 }).await });
+    let jr = tokio::time::timeout(Duration::from_secs(5), h).await;
+    match &jr { Ok(Err(e)) if e.is_panic() => {}, _ => ok = Err("a handler panic did not surface as a panic JoinError".into()) }
+    let tr = trace(&log);
+    if ok.is_ok() && tr.iter().any(|e| e.starts_with("stop:")) { ok = Err("on_stop ran after a handler panic".into()); }
+    if ok.is_ok() && !matches!(before, Ok(20)) { ok = Err("an ask handled before the panic did not get its reply".into()); }
+    if ok.is_ok() && !matches!(tokio::time::timeout(Duration::from_secs(5), behind).await, Ok(Ok(Err(_)))) { ok = Err("an ask queued behind the panicking message did not fail (hang or Ok)".into()); }
+    if ok.is_ok() && r.tell(Msg { id: 4, sleep_ms: 0 }).await.is_ok() { ok = Err("tell to a panicked actor returned Ok".into()); }
+    if ok.is_ok() && !matches!(by.ask(Msg { id: 5, sleep_ms: 0 }).await, Ok(50)) { ok = Err("another actor stopped working after the panic".into()); }
+    by.stop().await.unwrap(); let _ = join(hb).await;
+    // (b) on_run error, then the cleanup on_stop panics
+    STOP_PANICS.store(true, std::sync::atomic::Ordering::SeqCst);
+    let log2 = new_log();
+    let mut a = args(&log2);
+    a.script = vec![RunStep::Err];
+    let (_r, h2) = spawn::<Probe>(a);
+    let jr2 = tokio::time::timeout(Duration::from_secs(5), h2).await;
+    STOP_PANICS.store(false, std::sync::atomic::Ordering::SeqCst);
+    match &jr2 { Ok(Err(e)) if e.is_panic() => {}, Ok(Ok(res)) => if ok.is_ok() { ok = Err(format!("a panic in the cleanup on_stop after an on_run error surfaced as a normal result (is_failed={})", res.is_failed())) }, _ => if ok.is_ok() { ok = Err("actor did not end after on_run error + on_stop panic".into()) } }
+    let _ = std::panic::take_hook();
+    Out { name: "hook_panics", ok: ok.is_ok(), detail: ok.err().unwrap_or_default(), trace: tr }
+}
+
 /// BOUNDED stand-in for blocking_*_with_timeout_impl (std::thread + nested runtime: outside the verifier's reach).
 /// Real time, generous margins: handler holds the actor for 1500 ms, timeouts are 100 ms.
 fn blocking_timeout() -> Out {
@@ -474,6 +513,7 @@ fn main() {
     if want("ask_reply_integrity") { emit(rt().block_on(ask_reply_integrity())); }
     if want("erased_handles") { emit(rt().block_on(erased_handles())); }
     if want("identity_and_liveness") { emit(rt().block_on(identity_and_liveness())); }
+    if want("hook_panics") { emit(rt().block_on(hook_panics())); }
     if want("blocking_api") { emit(blocking_api()); }
     if want("blocking_timeout") { emit(blocking_timeout()); }
     #[cfg(feature = "deadlock-detection")]
